@@ -94,9 +94,13 @@ CastExp(v0, from, to) ==
 \* text to a number is the language's own parse of that text INTO THE TARGET TYPE (one rounding);
 \* text that is not a literal of the target type has no image (a clean panic).
 MID32 == 777006
-StrVals == Ints \cup {NULL, HALF, PINF, NINF, MID32}
+\* the text " None": the null text with a leading blank - NOT the string null (a cast that normalises
+\* whitespace turns a non-null into a null), and not a literal of any numeric type
+PADNONE == 777007
+StrVals == Ints \cup {NULL, HALF, PINF, NINF, MID32, PADNONE}
 StrCastExp(v, to) ==
     IF v = NULL THEN (IF CanNull(to) THEN <<"null">> ELSE <<"any">>)
+    ELSE IF v = PADNONE THEN <<"panic">>
     ELSE LET tb == Inner(to) IN
          CASE tb \in Floats -> IF v \in Ints THEN <<"val", v, 1>> ELSE IF v = HALF THEN <<"val", 3, 2>> ELSE <<"lang">>
            [] tb \in SInts \cup UInts -> IF v \in Ints /\ InRange(v, tb) THEN <<"val", v, 1>> ELSE <<"panic">>
@@ -187,6 +191,8 @@ Init == c \in {[from |-> f, to |-> t, v |-> v] : f \in Types, t \in Types, v \in
              \cup {[from |-> f, to |-> t, v |-> v] : f \in Types, t \in {"string"} \cup TimeTypes, v \in {NULL, 1}}
              \cup {[from |-> f, to |-> t, v |-> v] : f \in TimeTypes, t \in Types, v \in {NULL, 1}}
              \cup {[from |-> "string", to |-> t, v |-> v] : t \in Types, v \in StrVals}
+             \* text to text (&str -> String): the text itself, so nullness is kept - also for text NEAR the null text
+             \cup {[from |-> "string", to |-> "string", v |-> v] : v \in {NULL, 1, PADNONE}}
 Next == UNCHANGED vars
 Spec == Init /\ [][Next]_vars
 =============================================================================
